@@ -129,6 +129,18 @@ func isBuiltinFrame(fr starlark.CallFrame) bool {
 
 // RunProd executes src through the production pipeline.
 func RunProd(src string, opts Options) (out Outcome) {
+	out, _ = runProd(src, opts, false)
+	return
+}
+
+// RunProdTwice also initialises the same compiled program a second time on
+// the same thread (the way a host re-runs a cached program) and returns what
+// that second execution observes; nil if the program is statically invalid.
+func RunProdTwice(src string, opts Options) (first Outcome, second *Outcome) {
+	return runProd(src, opts, true)
+}
+
+func runProd(src string, opts Options, twice bool) (out Outcome, second *Outcome) {
 	env := NewEnv()
 	defer func() {
 		if r := recover(); r != nil {
@@ -155,6 +167,37 @@ func RunProd(src string, opts Options) (out Outcome) {
 	g, err := prog.Init(env.Thread, env.Predeclared)
 	out.Trace = env.Trace
 	out.Steps = env.Thread.ExecutionSteps()
+	if twice {
+		defer func() {
+			if out.Panic != "" {
+				return
+			}
+			// same program, same thread, once more
+			s2 := Outcome{}
+			func() {
+				defer func() {
+					if r := recover(); r != nil {
+						s2.Panic = fmt.Sprint(r)
+					}
+				}()
+				env.Trace = nil
+				before := env.Thread.ExecutionSteps()
+				env.Thread.Uncancel()
+				env.Thread.SetMaxExecutionSteps(before + stepBudget)
+				g2, err2 := prog.Init(env.Thread, env.Predeclared)
+				fillOutcome(&s2, env, g2, err2)
+				s2.Steps = env.Thread.ExecutionSteps() - before
+			}()
+			second = &s2
+		}()
+	}
+	fillOutcome(&out, env, g, err)
+	return
+}
+
+// fillOutcome records globals, error and positions of one execution.
+func fillOutcome(out *Outcome, env *Env, g starlark.StringDict, err error) {
+	out.Trace = env.Trace
 	names := g.Keys()
 	vals := make([]starlark.Value, len(names))
 	for i, n := range names {
@@ -189,7 +232,6 @@ func RunProd(src string, opts Options) (out Outcome) {
 			}
 		}
 	}
-	return
 }
 
 func staticPos(err error) Pos {
